@@ -100,6 +100,21 @@ struct Context {
     mode: ContextMode,
 }
 
+// what a source that fails to build is rolled back to
+struct BuildMark {
+    ctx: Context,
+    nested_len: usize,
+    input_len: usize,
+    fs_len: usize,
+    cs_len: usize,
+    di_len: usize,
+    ds_len: usize,
+    rs_len: usize,
+    ls_len: usize,
+    ss_len: usize,
+    rl_len: usize,
+}
+
 #[derive(Debug, Clone, Default, PartialEq)]
 pub struct Frame {
     fn_addr: usize,
@@ -352,17 +367,64 @@ impl State {
 
     fn build_from_file(&mut self, path: Xstr, mode: ContextMode) -> Xresult {
         let s = crate::file::fs_overlay::read_source_file(&path)?;
-        self.context_open(mode)?;
-        self.intern_source(s.into(), Some(path))?;
-        self.build0()?;
-        self.context_close()
+        self.build_source(s.into(), Some(path), mode)
     }
 
     fn build_from_source(&mut self, s: Xstr, mode: ContextMode) -> Xresult {
+        self.build_source(s, None, mode)
+    }
+
+    fn build_source(&mut self, s: Xstr, path: Option<Xstr>, mode: ContextMode) -> Xresult {
+        let mark = self.build_mark();
         self.context_open(mode)?;
-        self.intern_source(s, None)?;
-        self.build0()?;
-        self.context_close()
+        self.intern_source(s, path)?;
+        if let Err(e) = self.build0() {
+            // rejected while being read or compiled: leave no trace of it
+            self.build_rollback(mark);
+            return Err(e);
+        }
+        self.context_close().map_err(|e| {
+            // failed at run time: keep its effects, leave its context
+            self.input.truncate(mark.input_len);
+            self.nested.truncate(mark.nested_len);
+            let ip = self.ctx.ip;
+            self.ctx = mark.ctx;
+            self.ctx.ip = ip;
+            e
+        })
+    }
+
+    fn build_mark(&self) -> BuildMark {
+        BuildMark {
+            ctx: self.ctx.clone(),
+            nested_len: self.nested.len(),
+            input_len: self.input.len(),
+            fs_len: self.flow_stack.len(),
+            cs_len: self.code.len(),
+            di_len: self.dict.len(),
+            ds_len: self.data_stack.len(),
+            rs_len: self.return_stack.len(),
+            ls_len: self.loops.len(),
+            ss_len: self.special.len(),
+            rl_len: self.reverse_log.as_ref().map(|log| log.len()).unwrap_or(0),
+        }
+    }
+
+    fn build_rollback(&mut self, mark: BuildMark) {
+        self.input.truncate(mark.input_len);
+        self.nested.truncate(mark.nested_len);
+        self.ctx = mark.ctx;
+        self.flow_stack.truncate(mark.fs_len);
+        self.code.truncate(mark.cs_len);
+        self.debug_map.truncate(mark.cs_len);
+        self.dict.truncate(mark.di_len);
+        self.data_stack.truncate(mark.ds_len);
+        self.return_stack.truncate(mark.rs_len);
+        self.loops.truncate(mark.ls_len);
+        self.special.truncate(mark.ss_len);
+        if let Some(log) = self.reverse_log.as_mut() {
+            log.truncate(mark.rl_len);
+        }
     }
 
     pub fn eval_file(&mut self, path: Xstr) -> Xresult {
